@@ -162,13 +162,15 @@ def stepUnits (reg : Reg) (n : NodeRec) (c : KVs) : Except Err NodeRec :=
     | .error e => .error e
   | Option.none => .ok n
 
+/-- a serializer given by name is looked up in the registry -/
+def resolveSerializer (reg : Reg) : Val → Val
+  | .str nm => accessName reg.serializers nm
+  | v => v
+
 def stepSerializer (reg : Reg) (n : NodeRec) (c : KVs) : Except Err NodeRec :=
   match KV.lookup "_serializer" c with
   | some s =>
-    let s' := match s with
-      | .str nm => accessName reg.serializers nm
-      | v => v
-    match checkSchema n.serializer s' with
+    match checkSchema n.serializer (resolveSerializer reg s) with
     | .ok s'' => .ok { n with serializer := s'' }
     | .error e => .error e
   | Option.none => .ok n
